@@ -126,3 +126,16 @@ pub fn verif_str_eq<A: VerifStr>(a: &A, b: &str) -> (r: bool)
 pub fn verif_str_ne<A: VerifStr>(a: &A, b: &str) -> (r: bool)
     ensures r == (a.sv() != b@)
 { a.as_s() != b }
+
+// ---- default std-idiom shims (rule E13, applied to every unit when the idiom occurs) ------------
+/// `X.chars().count()`: the number of chars = length of the view
+#[verifier::external_body]
+pub fn verif_chars_count(s: &str) -> (r: usize)
+    ensures r == s@.len()
+{ s.chars().count() }
+
+/// `X.lines().count()`
+#[verifier::external_body]
+pub fn verif_lines_count(s: &str) -> (r: usize)
+    ensures r == lines_of(s@).len()
+{ s.lines().count() }
